@@ -144,9 +144,10 @@ CHECKS["C04"] = dict(
          "balanced on their own, numeric connections carrying k*(relative displacement).  The implementation's whole "
          "pipeline (network build, rigid contraction, disconnect split, assembly, Newton, copy-back) is certified against "
          "that equilibrium for every option assignment of small receivers (exhaustive) and sampled larger ones.",
-    note="partial: uniqueness of the equilibrium / agreement with direct stiffness is validated by an independent dense "
-         "solve, not proved; networkx and numpy.linalg.solve are certified through their result only; real (non-affine) "
-         "tube solvers are outside the model.",
+    note="Uniqueness is proved for what every tube sees (C04_tube_tops_unique: with positive stiffnesses any two equilibria give "
+         "every tube the same top displacement; a panel is a spring of stiffness sum k kt/(k+kt)); agreement with an independent "
+         "dense direct-stiffness solve is additionally validated.  networkx and numpy.linalg.solve are certified through their "
+         "result only; real (non-affine) tube solvers are outside the model.",
     technique="Coq proof (algebra over Q) + exhaustive equilibrium-certificate correspondence by vm_compute",
     design="4/C04")
 
